@@ -82,7 +82,7 @@ fn ident(s: &Sx) -> ast::Ident<'static> {
     let line: u32 = a[1].num();
     let off: usize = a[2].num();
     assert!(
-        name.bytes().all(|c| c.is_ascii_alphanumeric() || c == b'_' || c == b'.'),
+        name.bytes().all(|c| c.is_ascii_alphanumeric() || c == b'_' || c == b'.' || c == b'+'),
         "identifier outside the domain charset"
     );
     if line == 1 && off == 0 {
@@ -991,13 +991,16 @@ fn codec_tree(prog: &Main) -> String {
 fn work(mode: &str, input: &str, output: &str) {
     let inp = std::io::BufReader::new(std::fs::File::open(input).expect("open input"));
     let mut out = BufWriter::new(std::fs::File::create(output).expect("create output"));
-    for line in inp.lines() {
+    for (lineno, line) in inp.lines().enumerate() {
         let line = line.expect("read");
         if line.trim().is_empty() {
             continue;
         }
-        let sx = sx::parse(&line);
-        let prog = program(&sx);
+        let built = std::panic::catch_unwind(|| program(&sx::parse(&line)));
+        let Ok(prog) = built else {
+            eprintln!("harness: malformed input at line {}", lineno + 1);
+            std::process::exit(3);
+        };
         let res = match mode {
             "run" => analyse(&prog).unwrap_or_else(|| "(panic)".to_string()),
             "codec" => {
